@@ -5,6 +5,7 @@ import (
 	"errors"
 	"fmt"
 	"math/big"
+	"regexp"
 	"strings"
 
 	"github.com/consensys/gnark/backend/witness"
@@ -43,6 +44,8 @@ type nemesis struct {
 }
 
 var errNemesis = errors.New("nemesis: injected hint failure")
+
+var reEdge = regexp.MustCompile(`edge\[([^\]]+)\]`)
 
 var probeID = solver.GetHintID(probeHint)
 
@@ -346,6 +349,46 @@ var strategies = []strategy{
 	}},
 }
 
+// constAll answers every output with the constant v (the degenerate decomposition).
+func constAll(v int64) func(n *nemesis, idx int, f solver.Hint, q *big.Int, in, out []*big.Int) error {
+	return func(n *nemesis, idx int, f solver.Hint, q *big.Int, in, out []*big.Int) error {
+		if err := f(q, in, out); err != nil {
+			return err
+		}
+		for _, o := range out {
+			o.SetInt64(v)
+		}
+		return nil
+	}
+}
+
+// echoInputs answers with the window of the hint's own inputs starting at off.
+func echoInputs(off int) func(n *nemesis, idx int, f solver.Hint, q *big.Int, in, out []*big.Int) error {
+	return func(n *nemesis, idx int, f solver.Hint, q *big.Int, in, out []*big.Int) error {
+		if err := f(q, in, out); err != nil {
+			return err
+		}
+		for i := range out {
+			if off+i < len(in) {
+				out[i].Set(in[off+i])
+			}
+		}
+		return nil
+	}
+}
+
+// perturbFirst adds one to the first output.
+func perturbFirst(n *nemesis, idx int, f solver.Hint, q *big.Int, in, out []*big.Int) error {
+	if err := f(q, in, out); err != nil {
+		return err
+	}
+	if len(out) > 0 {
+		out[0].Add(out[0], big.NewInt(1))
+		modq(out[0], q)
+	}
+	return nil
+}
+
 // safeHint evaluates the honest hint on altered inputs in2; hint functions are prover-side
 // code that may legitimately panic or fail on inputs no circuit would hand them, in which case
 // the honest answer for the real inputs is used instead.
@@ -393,6 +436,20 @@ type gcase struct {
 	// Classify refines the key of a wrong-output-accepted violation from the faulted calls
 	// (so that a recorded known finding stays specific)
 	Classify func(honest, faulted []hintCall, planned map[int]bool, q *big.Int) string
+	// Field pins the native field of the case (gadgets tied to one native curve)
+	Field *sField
+	// MaxFaults caps the faulty plans per run (expensive circuits)
+	MaxFaults int
+	// Focus marks the hints the property is about (by function name): half of the fault sites
+	// are drawn among their invocations, so that they are not drowned by the thousands of
+	// arithmetic hints of an emulated circuit
+	Focus func(name string) bool
+	// Combo enables the degenerate-answer phase: every focused invocation answered with all
+	// zeros (and all ones) while another focused invocation is perturbed
+	Combo bool
+	// FocusOnly: fault sites are drawn among the focused invocations only (the other hints
+	// of the circuit belong to another property)
+	FocusOnly bool
 }
 
 type compiled struct {
@@ -475,6 +532,9 @@ func nemesisRun(w *Worker, tape *simrt.Tape, prop string, cases []*gcase, fields
 	if f.Small && !gc.SmallOK {
 		f = fields[0]
 	}
+	if gc.Field != nil {
+		f = *gc.Field
+	}
 	builder := ch(2)
 	if gc.EngineOnly {
 		builder = 2
@@ -514,7 +574,14 @@ func nemesisRun(w *Worker, tape *simrt.Tape, prop string, cases []*gcase, fields
 		sat = err == nil
 	}
 	if (err == nil) != sat {
-		o.violate("baseline-verdict", "baseline-verdict:"+where, fmt.Sprintf("with honest hints the circuit is %s but the oracle expects satisfiable=%v (err=%v)\ncase: %s", map[bool]string{true: "satisfied", false: "unsatisfied"}[err == nil], sat, err, o.Desc))
+		bkey := "baseline-verdict:" + where
+		if m := reEdge.FindStringSubmatch(adesc); m != nil {
+			bkey += ":" + m[1]
+		}
+		if o.violateOrKnown(w, "baseline-verdict", bkey, fmt.Sprintf("with honest hints the circuit is %s but the oracle expects satisfiable=%v (err=%v)\ncase: %s", map[bool]string{true: "satisfied", false: "unsatisfied"}[err == nil], sat, err, o.Desc)) {
+			return o
+		}
+		o.Desc += " (known baseline finding)"
 		return o
 	}
 	if err == nil {
@@ -525,24 +592,104 @@ func nemesisRun(w *Worker, tape *simrt.Tape, prop string, cases []*gcase, fields
 	}
 	ncalls := len(base.calls)
 	o.probeN("hint_calls", ncalls)
+	if gc.FocusOnly {
+		nf := 0
+		for _, c := range base.calls {
+			if gc.Focus(c.Name) {
+				nf++
+			}
+		}
+		if nf == 0 {
+			ncalls = 0
+		}
+	}
 	if ncalls == 0 {
 		o.probe("no_hint_to_fault")
 		return o
 	}
 	nfaults := w.paramInt("faults", 24)
-	for k := 0; k < nfaults; k++ {
-		n := &nemesis{q: f.Q, honest: base.calls, plan: map[int]func(*nemesis, int, solver.Hint, *big.Int, []*big.Int, []*big.Int) error{}}
-		nsites := 1
-		if tape.Choose(simrt.SFault, 4) == 0 {
-			nsites = 2
+	if gc.MaxFaults > 0 && nfaults > gc.MaxFaults && !w.Thorough {
+		nfaults = gc.MaxFaults
+	}
+	var focused []int
+	if gc.Focus != nil {
+		for i, c := range base.calls {
+			if gc.Focus(c.Name) {
+				focused = append(focused, i)
+			}
 		}
+		o.probeN("focused_hint_calls", len(focused))
+	}
+	// degenerate-answer plans (Combo): (zero-all | one-all)@i + perturb@j over focused pairs
+	type comboPlan struct{ i, j, kind int }
+	const kindEcho = 100 // kind >= kindEcho: echo the input window starting at kind-kindEcho
+	var combos []comboPlan
+	if gc.Combo && len(focused) > 0 {
+		fc := focused
+		if len(fc) > 6 {
+			fc = fc[:6]
+		}
+		for _, i := range fc {
+			// "echo the question": the answer is a window of the hint's own inputs (e.g. the
+			// base point given back as the product), at element-aligned offsets
+			c := base.calls[i]
+			step, first := 1, 0
+			if _, nl, _, ok := emuLayout(c.In, c.Out); ok {
+				step, first = nl, 2+nl
+				// emulated inputs may carry a count / length prefix per element: try both alignments
+			}
+			nEcho := 0
+			maxEcho := 12
+			if gc.EngineOnly {
+				maxEcho = 4
+			}
+			for off := first; off+len(c.Out) <= len(c.In) && nEcho < maxEcho; off += step {
+				combos = append(combos, comboPlan{i, -1, kindEcho + off})
+				nEcho++
+			}
+			for kind := 0; kind < 2; kind++ {
+				combos = append(combos, comboPlan{i, -1, kind})
+				for _, j := range fc {
+					if j != i {
+						combos = append(combos, comboPlan{i, j, kind})
+					}
+				}
+			}
+		}
+	}
+	for k := 0; k < nfaults+len(combos); k++ {
+		n := &nemesis{q: f.Q, honest: base.calls, plan: map[int]func(*nemesis, int, solver.Hint, *big.Int, []*big.Int, []*big.Int) error{}}
 		var fdesc []string
-		for s := 0; s < nsites; s++ {
-			idx := tape.Choose(simrt.SFault, ncalls)
-			st := strategies[tape.Choose(simrt.SFault, len(strategies))]
-			n.plan[idx] = st.Make(tape)
-			fdesc = append(fdesc, fmt.Sprintf("%s@call%d", st.Name, idx))
-			o.fault(st.Name)
+		if k >= nfaults {
+			cp := combos[k-nfaults]
+			if cp.kind >= kindEcho {
+				n.plan[cp.i] = echoInputs(cp.kind - kindEcho)
+				fdesc = append(fdesc, fmt.Sprintf("echo-inputs-%d@call%d", cp.kind-kindEcho, cp.i))
+				o.fault("echo-inputs")
+			} else {
+				n.plan[cp.i] = constAll(int64(cp.kind))
+				fdesc = append(fdesc, fmt.Sprintf("const-all-%d@call%d", cp.kind, cp.i))
+				o.fault("const-all")
+			}
+			if cp.j >= 0 {
+				n.plan[cp.j] = perturbFirst
+				fdesc = append(fdesc, fmt.Sprintf("perturb-first@call%d", cp.j))
+			}
+		} else {
+			nsites := 1
+			if tape.Choose(simrt.SFault, 4) == 0 {
+				nsites = 2
+			}
+			for s := 0; s < nsites; s++ {
+				idx := tape.Choose(simrt.SFault, ncalls)
+				if len(focused) > 0 && (gc.FocusOnly || tape.Choose(simrt.SFault, 2) == 0) {
+					idx = focused[tape.Choose(simrt.SFault, len(focused))]
+				}
+				st := strategies[tape.Choose(simrt.SFault, len(strategies))]
+				n.plan[idx] = st.Make(tape)
+				fdesc = append(fdesc, fmt.Sprintf("%s@call%d", st.Name, idx))
+				o.fault(st.Name)
+			}
 		}
 		err, pan := runCase(n, gc, comp, a, f.Q, builder)
 		o.Evals++
